@@ -34,7 +34,7 @@ package tcp
 //@   requires t != nil && t.listener != nil
 //@   modifies nothing
 //@   loop 0 emits
-//@   loop 0 invariant retries_only_timeouts_while_open: implies(nemitted() > 0, nemitted() == 3 && evis(0, "AcceptTCP") && evarg(0, 0) == t.listener && evres(0, 1) != nil && evis(1, "load t.closed") && evres(1, 0) == 0 && evis(2, "time.Sleep"))
+//@   loop 0 invariant retries_only_timeouts_while_open: implies(nemitted() > 0, nemitted() == 4 && evis(0, "AcceptTCP") && evarg(0, 0) == t.listener && evres(0, 1) != nil && evis(1, "load t.closed") && evres(1, 0) == 0 && evis(2, "net.Error.Timeout") && evres(2, 0) && evis(3, "time.Sleep"))
 //@   loop 0 invariant delay_bounded: 0 <= tempDelay && tempDelay <= 1000000000
 //@   ensures result_of_last_accept: last("AcceptTCP") >= 0 && evarg(last("AcceptTCP"), 0) == t.listener && implies(result1 == nil, result0 != nil && evres(last("AcceptTCP"), 1) == nil)
 //@   ensures closed_acceptor_reports_the_error: implies(evres(last("AcceptTCP"), 1) != nil, result1 != nil && result0 == nil && evis(last("AcceptTCP") + 1, "load t.closed"))
